@@ -102,7 +102,7 @@ def r1_framing(L, repo):
         if isinstance(r, ast.Tuple) and len(r.elts) == 2:
             m_e, l_e = r.elts
             # conds: '<tag expr> == self.TAG_X'
-            pos = [c for c, p in conds if p]
+            pos = [c for c, p in conds if p and " == " in c and "self.TAG_" in c]
             if len(pos) != 1:
                 raise AnalysisError("parse_hdr: tag test unclassifiable: %s" % conds)
             test = ast.parse(pos[0], mode="eval").body
@@ -264,7 +264,7 @@ def r3_skip_count(L, repo, hl):
     fw.run(pm.body)
     P = params(pm)[1]
     got = sorted((tuple(c for c in conds), canon(r) if r is not None else "None") for conds, r in fw.returns)
-    want = sorted([((("not self._seek2msg(%s)" % P, True),), "None"), ((("not self._seek2msg(%s)" % P, False),), "self._parse_msg()")])
+    want = sorted([((("self._seek2msg(%s)" % P, False),), "None"), ((("self._seek2msg(%s)" % P, True),), "self._parse_msg()")])
     L.require("C15.R3", F, "DATADumpFile.parse_msg", "random access = skip idx records, then read one", want, got)
     # parse_all
     ci, pa = repo.need_method("data_dump", "DATADumpFile", "parse_all")
@@ -281,10 +281,10 @@ def r3_skip_count(L, repo, hl):
     fw = Fwd(split=True)
     fw.run(pre)
     eff = sorted((tuple(c), e) for c, e in fw.effects if "log." not in e)
-    want_eff = sorted([((("%s is None" % SKIP, True),), "self.f.seek(0)")])
+    want_eff = sorted([((("None is %s" % SKIP, True),), "self.f.seek(0)")])
     L.require("C15.R3", F, fn, "without skip the file is read from the start", want_eff, eff)
     rr = sorted((tuple(c), canon(r) if r is not None else "None") for c, r in fw.returns)
-    want_r = [((("%s is None" % SKIP, False), ("not self._seek2msg(%s)" % SKIP, True)), "False")]
+    want_r = [((("None is %s" % SKIP, False), ("self._seek2msg(%s)" % SKIP, False)), "False")]
     L.require("C15.R3", F, fn, "with skip the file is positioned by _seek2msg(skip); failure is a range error (False)", want_r, rr)
     # loop body decision table
     msgdefs = [n for n in loop.body if isinstance(n, ast.Assign) and canon(n.value) == "self._parse_msg()"]
@@ -318,8 +318,7 @@ def r3_skip_count(L, repo, hl):
                     events.append(("break",))
                     return "loop"
                 if isinstance(st, ast.Continue):
-                    events.append(("continue",))
-                    return "loop"
+                    return "loop"        # going on with the next record: no effect of its own
                 r = Walker.walk(self, [st], assign, events)
                 if r:
                     return r
@@ -344,7 +343,7 @@ def r3_skip_count(L, repo, hl):
         if a[A_NONE]:
             want = (("break",),)
         elif a[A_FALSE]:
-            want = (("continue",),)
+            want = ()
         else:
             want = [("call", "%s.append(%s)" % (RES, MV))]
             if not a[A_CNT] and a[A_FULL]:
